@@ -237,6 +237,7 @@ func firstDiff(m, i StateJ) string {
 // features of a history, from what the real code did: used for the non-triviality rule and the histogram.
 type features struct {
 	reclaimTimeout, reclaimUnknown, liveSurvived, upstreamDeleted, storeDropped, returned, rejected, tooOld bool
+	refused, oob, burstState, reclaimAfterNotFound                                                       bool
 	ops                                                                                                map[string]int
 }
 
@@ -305,6 +306,38 @@ func featuresOf(cs Case, tr trace) features {
 			if len(post.Clusters) < len(pre.Clusters) {
 				f.upstreamDeleted = true
 			}
+		}
+		if op.Op == "cleanupTimeout" || op.Op == "cleanupUnknown" {
+			hb := map[string]bool{}
+			for _, h := range post.Hb {
+				hb[h.I] = true
+			}
+			failing := map[string]bool{}
+			for _, n := range post.Failing {
+				failing[n] = true
+			}
+			for _, c := range post.Conds {
+				if failing[c.Name] && c.I != "" && !hb[c.I] {
+					f.refused = true
+				}
+			}
+			if tr.apis != nil {
+				postNames := map[string]bool{}
+				for _, c := range post.Conds {
+					postNames[c.Name] = true
+				}
+				for _, c := range pre.Conds {
+					if !postNames[c.Name] && !tr.apis[k][rig.UnHex(c.Name)] {
+						f.reclaimAfterNotFound = true // the API delete answered NotFound, the cache entry went all the same
+					}
+				}
+			}
+		}
+		if op.Op == "apiDelete" && tr.apis != nil && tr.apis[k][rig.UnHex(op.Name)] {
+			f.oob = true
+		}
+		if op.Op == "burst" && k < len(tr.sts) && tr.sts[k] != nil {
+			f.burstState = true
 		}
 		if op.Op == "leaderCheck" && len(post.Shards) < len(pre.Shards) {
 			f.storeDropped = true
@@ -383,7 +416,9 @@ func runOne(c *rig.Ctx, cs Case, origin string) {
 	for name, b := range map[string]bool{"hit:reclaimed-by-timeout-pass": f.reclaimTimeout, "hit:reclaimed-by-unknown-pass": f.reclaimUnknown,
 		"hit:live-instance-survived-a-reclaiming-pass": f.liveSurvived, "hit:upstream-deleted-by-unknown-pass": f.upstreamDeleted,
 		"hit:store-dropped-by-leaderCheck": f.storeDropped, "hit:instance-returned-after-reclaim": f.returned,
-		"hit:request-rejected(notLeader/noStore/noLock/notFound/typeMismatch)": f.rejected, "hit:RequestIDTooOld": f.tooOld} {
+		"hit:request-rejected(notLeader/noStore/noLock/notFound/typeMismatch)": f.rejected, "hit:RequestIDTooOld": f.tooOld,
+		"hit:k8s-delete-refused-by-api-condition-kept": f.refused, "hit:k8s-out-of-band-api-delete": f.oob,
+		"hit:k8s-reclaimed-although-api-said-NotFound": f.reclaimAfterNotFound, "hit:burst-left-a-state": f.burstState} {
 		if b {
 			c.Count(name)
 		}
@@ -409,11 +444,13 @@ func main() {
 	klog.SetOutput(io.Discard)
 
 	rig.Main("C18", func(c *rig.Ctx) {
-		c.SetRule("a history of 15-90 ops over 1-3 shards, 1-3 upstreams (1-4 global max-in-flight / token-bucket schemas) and 2-7 gateway identities " +
-			"(ordinary, with ':', >63 bytes, colliding under ':'->'-', empty, 'state'): heartbeat / report / acquire / time-out pass at a scripted clock / " +
-			"unknown pass / leadership flaps + leaderCheck / list, unlist, upstream events; run on the real rateLimiter and on the model, the whole recorded " +
-			"state compared and judged after every op; distinct = distinct canonical history; non-trivial = on the real code a clean-up pass removed every " +
-			"recorded trace (condition or in-flight state) of at least one instance")
+		c.SetRule("a history of 15-90 generator steps over 1-3 shards, 1-3 upstreams (1-4 global max-in-flight / token-bucket schemas) and 2-7 gateway identities " +
+			"(ordinary, with ':', >63 bytes, colliding under ':'->'-', empty, 'state'): heartbeat / report / acquire / BURST of 2-8 parallel acquires of one instance / " +
+			"time-out pass at a scripted clock / unknown pass / leadership flaps + leaderCheck / list, unlist, upstream events; every third history runs on the API-BACKED " +
+			"store (write-through, fake API) with deletes of chosen conditions failing (unavailable / answer lost) and out-of-band API deletions; every eighth is a join " +
+			"storm (12-41 instances each joining with 8 parallel first acquires, then dying; some return); run on the real rateLimiter and on the model, the whole recorded " +
+			"state (the store's cache) compared and judged after every op, the API contents judged against the cache; distinct = distinct canonical history; " +
+			"non-trivial = on the real code a clean-up pass removed every recorded trace (condition or in-flight state) of at least one instance")
 		var consts struct {
 			TimeoutMs int64  `json:"timeoutMs"`
 			Label     string `json:"label"`
@@ -480,7 +517,16 @@ func main() {
 			if k%5 == 0 {
 				size = 50 + c.Rng.Intn(40)
 			}
-			runOne(c, genCase(c.Rng, size, consts.TimeoutMs), "")
+			k8s := k%3 == 1
+			if k%8 == 7 {
+				runOne(c, genStorm(c.Rng, consts.TimeoutMs, k8s), "storm:")
+				continue
+			}
+			origin := ""
+			if k8s {
+				origin = "k8s:"
+			}
+			runOne(c, genCase(c.Rng, size, consts.TimeoutMs, k8s), origin)
 		}
 	})
 }
